@@ -1104,7 +1104,13 @@ fn deliver(n: &Notice, others: &[Notice]) -> Delivered {
     (Move::PadProtected, Ser::Compact) => {
       let parts: Vec<&str> = n.wire.split('.').collect();
       if parts.len() == 3 {
-        wire = format!("{}{}.{}.{}", parts[0], ["=", "=="][ctx::choose(2)], parts[1], parts[2]);
+        // base64 padding behind the protected segment, or - a token cut out of a file or a header line - a blank, tab,
+        // line feed or carriage return before or behind the whole token: not the bytes that were signed either way
+        wire = match ctx::choose(4) {
+          0 | 1 => format!("{}{}.{}.{}", parts[0], ["=", "=="][ctx::choose(2)], parts[1], parts[2]),
+          2 => format!("{}{}", [" ", "\t", "\n", "\r", "\r\n"][ctx::choose(5)], n.wire),
+          _ => format!("{}{}", n.wire, [" ", "\t", "\n", "\r", "\r\n"][ctx::choose(5)]),
+        };
         Some(())
       } else {
         None
